@@ -107,11 +107,27 @@ def r8_recognition_order(ctx, pf, rule="C15.R8"):
     def disjuncts(t):
         return t.values if isinstance(t, ast.BoolOp) and isinstance(t.op, ast.Or) else [t]
 
-    def transfer(n, st, label):
-        if label in ("exc", "abandon"):
-            return st
-        ids, raw_may_be_str = st
+    def len_test(t):
+        """(op, k) for a test `len(P) <op> k` on the prediction name, else None (comparisons are in canonical orientation: literal on the right)"""
+        if isinstance(t, ast.Compare) and len(t.ops) == 1 and isinstance(t.left, ast.Call) and call_name(t.left) == "len" and t.left.args and unparse(t.left.args[0]) == P \
+                and isinstance(t.comparators[0], ast.Constant) and isinstance(t.comparators[0].value, int):
+            return type(t.ops[0]), t.comparators[0].value
+        return None
+
+    def step(n, el, label):
+        """one abstract path: (identity-tested expressions, raw answer may be a str, P is the 1-element wrapper [raw], len(raw) == 2 known)"""
+        ids, raw_may_be_str, wrapped, len2 = el
         if n.kind == "test":
+            lt = len_test(n.ast)
+            if lt is not None:
+                op, k = lt
+                size = 1 if wrapped else (2 if len2 else None)
+                if size is not None:
+                    val = {ast.Eq: size == k, ast.NotEq: size != k, ast.Gt: size > k, ast.GtE: size >= k, ast.Lt: size < k, ast.LtE: size <= k}.get(op)
+                    if val is not None and (label == "true") != val:
+                        return None  # this branch cannot be taken on this path
+                elif op is ast.Eq and k == 2 and not wrapped:
+                    len2 = label == "true"
             if label == "false":
                 t_ = n.ast
                 if isinstance(t_, ast.BoolOp) and isinstance(t_.op, ast.And) and len(t_.values) == 2 and unparse(t_.values[0]) == ACT:
@@ -133,13 +149,29 @@ def r8_recognition_order(ctx, pf, rule="C15.R8"):
             w = stored_names(n)
             if P in w:
                 raw_may_be_str = False  # re-bound: no longer the raw answer
-                ids = frozenset(i for i in ids if P not in {x.id for x in ast.walk(ast.parse(i)) if isinstance(x, ast.Name)})
-        return (ids, raw_may_be_str)
+                wraps = isinstance(n.ast, ast.Assign) and unparse(n.ast.value) == f"[{P}]" and [unparse(t) for t in n.ast.targets] == [P]
+                kept = set()
+                for i in ids:
+                    if P not in {x.id for x in ast.walk(ast.parse(i)) if isinstance(x, ast.Name)}:
+                        kept.add(i)
+                    elif wraps and i == P:
+                        kept.add(f"{P}[0]")  # P = [P]: the raw answer, already identity-tested, is now P[0]
+                ids = frozenset(kept)
+                wrapped, len2 = (True, None) if wraps else (False, None)
+        return (ids, raw_may_be_str, wrapped, len2)
 
-    def join(a, b):
-        return (a[0] & b[0], a[1] or b[1])
+    def transfer(n, st, label):
+        if label in ("exc", "abandon"):
+            return st
+        out = set()
+        for el in st:
+            r = step(n, el, label)
+            if r is not None:
+                out.add(r)
+        return frozenset(out) if out else None
 
-    IN = forward(g, (frozenset(), True), transfer, join)
+    SETS = forward(g, frozenset([(frozenset(), True, False, None)]), transfer, lambda a_, b_: a_ | b_)
+    IN = {k: (frozenset.intersection(*[e[0] for e in v]) if v else frozenset(), any(e[1] for e in v)) for k, v in SETS.items()}
     n_h = n_l = 0
     for n in g.nodes:
         if n.kind != "test" or n.id not in IN:
